@@ -62,7 +62,7 @@ pub fn largest_header(ids: &[SimId], codec: CodecKind) -> usize {
 pub fn gen_params(seed: u64, tier: Tier) -> P {
     let mut s = Stream::new(seed, "c02-params");
     let nmax = match tier {
-        Tier::Quick => 8,
+        Tier::Quick => 10,
         Tier::Thorough => 24,
     };
     let n = s.range(2, nmax) as usize;
@@ -80,8 +80,8 @@ pub fn gen_params(seed: u64, tier: Tier) -> P {
     let min_feed = feed_min_mps(&ids, codec);
     let hdr = largest_header(&ids, codec);
     let (mps, feeds) = match s.below(8) {
-        0 => (min_feed, true),
-        1 => (min_feed + s.range(0, 30) as usize, true),
+        0 | 4 => (min_feed, true),
+        1 | 5 => (min_feed + s.range(0, 30) as usize, true),
         2 => (1400, true),
         3 if min_feed > hdr + 1 => (s.range(hdr as u64, min_feed as u64 - 1) as usize, false),
         _ => (s.range(min_feed as u64, 1400.max(min_feed as u64)) as usize, true),
@@ -285,12 +285,15 @@ pub fn execute(p: &P, seed: u64) -> RunOut {
                         let mutual = !w.view(b).contains(&w.id_of(a));
                         let told = told_about(&w, a, b) || told_about(&w, b, a);
                         let pending = (1..=n as u16).any(|c| backlog_mentions(&w, c, a) || backlog_mentions(&w, c, b));
-                        let sig = p.wc.cfg.periodic_announce.is_none() && mutual && !told && !pending;
+                        // ... and no Feed either of them received came from a member that knew the other one
+                        let fed = |r: u16, x: u16| w.feed_log.iter().any(|(_, to, known)| *to == r && known.contains(&x));
+                        let could_have_been_fed = fed(a, b) || fed(b, a);
+                        let sig = p.wc.cfg.periodic_announce.is_none() && mutual && !told && !pending && !could_have_been_fed;
                         if !sig {
                             never_told_only = false;
                         }
                         if detail.is_empty() || !sig {
-                            detail = format!("node {a} does not list node {b} {} probe periods after the last announce (mutual: {mutual}, ever told: {told}, updates about them still pending somewhere: {pending}, periodic announce: {})",
+                            detail = format!("node {a} does not list node {b} {} probe periods after the last announce (mutual: {mutual}, ever told: {told}, a Feed one of them received came from a member that knew the other: {could_have_been_fed}, updates about them still pending somewhere: {pending}, periodic announce: {})",
                                 (w.now - last_announce) / period, p.wc.cfg.periodic_announce.is_some());
                         }
                     }
@@ -365,7 +368,7 @@ pub fn def() -> CheckDef {
     CheckDef {
         property: "C02",
         level: "exploration",
-        rule: "seeded fault-free clusters: n in 2..=N (quick 8, thorough 24), join plans by family (F1 sequential joins, F2 concurrent joins with periodic announce, F3 concurrent joins without), configuration swarm (fan-out 1..4, max_transmissions 1..10, periodic gossip/announce on or off, probe_period/probe_rtt in [1.05,5], packet sizes from just-large-enough-to-feed-the-cluster to 1400 and, for the no-false-suspicion clause only, down to the largest header; fixed/variable identity encodings; four codecs), per-datagram latencies below probe_rtt/4; non-trivial = n >= 2; distinct = abstracted event log of the whole cluster",
+        rule: "seeded fault-free clusters: n in 2..=N (quick 10, thorough 24), join plans by family (F1 sequential joins, F2 concurrent joins with periodic announce, F3 concurrent joins without), configuration swarm (fan-out 1..4, max_transmissions 1..10, periodic gossip/announce on or off, probe_period/probe_rtt in [1.05,5], packet sizes from just-large-enough-to-feed-the-cluster to 1400 and, for the no-false-suspicion clause only, down to the largest header; fixed/variable identity encodings; four codecs), per-datagram latencies below probe_rtt/4; non-trivial = n >= 2; distinct = abstracted event log of the whole cluster",
         assumptions: vec![
             "premise enforced: one-way latency < probe_rtt/4, probe_rtt < probe_period, every timer fires exactly at its deadline, no loss, no duplication".into(),
             "discovery bounds: F1 (2n+1) probe periods after each announce; F2 (2n+1) probe periods + (n+4) announce periods after the last announce; F3 has no bound (known finding K-C02-1 when the stalled pairs were never told of each other)".into(),
